@@ -525,6 +525,77 @@ def rule_point_zero_counted(col, facts):
     col.floor(R, "literal `0` digits stored before min_exact_digits", n, 1)
 
 
+def rule_decimal_tie(col, facts):
+    """UNIT-parity (decimal): in truncate_and_round_decimal the tie `…5000` goes to even: the parity tested is that
+    of the *last kept* digit, i.e. element 0 of `digits[max_digits - 1 ..]` (for decimal the character's parity
+    equals the digit's).  Any other element - e.g. the truncated `5` itself - makes every tie round up."""
+    from rules.core import fold
+    R = "UNIT-parity"
+    f = facts.fn(WF + "shared::truncate_and_round_decimal")
+    n = 0
+    for i, b in enumerate(f.blocks):
+        if not f.live(i):
+            continue
+        for st in b["s"]:
+            if not (st[0] == "=" and st[2][0] == "bin" and ((st[2][1] == "Rem" and st[2][3][0] == "k" and st[2][3][1].get("v") == 2) or (st[2][1] == "BitAnd" and st[2][3][0] == "k" and st[2][3][1].get("v") == 1))):
+                continue
+            e = strip_casts(rvalue_expr(f, st[2], 0))
+            x = strip_casts(e[2])
+            n += 1
+            ok = False
+            why = "operand `%s` is not an element of the digit slice" % show(x)
+            if x[0] == "proj" and x[2] and isinstance(x[2][-1], tuple) and x[2][-1][0] == "idx":
+                idx_local = x[2][-1][1]
+                idx = fold(f, ["cp", [idx_local, []]])
+                base = x[1]
+                rng = [c for c in expr_calls(base) if last_seg(c[1]) in ("index", "index_mut")]
+                start = None
+                for c in rng:
+                    ag = strip_casts(c[2][1])
+                    if ag[0] == "agg" and len(ag[2]) >= 1:
+                        start = strip_casts(ag[2][0])
+                if start is None:
+                    # direct indexing digits[expr]
+                    why = "the parity is not taken from the slice starting at max_digits - 1"
+                else:
+                    st_ok = start[0] == "bin" and start[1] == "Sub" and strip_casts(start[3]) == ("k", 1) and any(last_seg(c[1]) == "max_significant_digits" for c in expr_calls(start[2]))
+                    ok = st_ok and idx == 0
+                    why = "element %s of the slice starting at `%s`" % (idx, show(start))
+            col.check(R, "truncate_and_round_decimal:last-kept-digit#%d" % n, ok,
+                      "the tie-to-even parity is taken of %s, not of the last kept digit `digits[max_digits - 1]`" % why, f.loc(st[3]))
+    col.floor(R, "parity tests in truncate_and_round_decimal", n, 1)
+
+
+def rule_padding_not_disabled_by_trim(col, facts):
+    """MPT-pad: `trim_floats` only removes the `.0` of integral outputs; it must not switch off the zero padding up
+    to min_significant_digits for everything else.  For every padding site (a fill(b'0') after min_exact_digits)
+    there is a path on which trim_floats() was not found false - a padding guarded by `!options.trim_floats()`
+    alone drops the padding of `0.5` (min 3 -> `0.5` instead of `0.500`)."""
+    from rules.pipeline import reach_from
+    R = "MPT-pad"
+    n = 0
+    for f in facts.all_fns():
+        if f.crate != "lexical_write_float" or f.kind == "Closure" or not last_seg(f.short).startswith("write_float_"):
+            continue
+        mins = [bb for bb, c, a, d, t in f.calls() if callee_name(c) == WF + "shared::min_exact_digits"]
+        if not mins:
+            continue
+        fills = [bb for bb, c, a, d, t in f.calls() if last_seg(callee_name(c)) == "fill" and any(bb in reach_from(f, m) for m in mins)]
+        base = f.short.replace(WF, "")
+        col.check(R, base + ":padding-present", bool(fills), "no zero padding after min_exact_digits", f.loc())
+        for k, fb in enumerate(fills):
+            n += 1
+            paths = enum_paths(f, 0, {fb})
+            free = 0
+            for _t, atoms in paths:
+                trims = [p for e, p in atoms if strip_casts(e)[0] == "call" and last_seg(strip_casts(e)[1]) == "trim_floats"]
+                if not any(p is False for p in trims):
+                    free += 1
+            col.check(R, "%s:padding#%d" % (base, k), free >= 1,
+                      "the padding up to min_significant_digits is only reachable with trim_floats() == false: trimming floats also drops the padding of non-integral outputs", f.loc(f.blocks[fb]["ts"]))
+    col.floor(R, "min-digit padding sites", n, 3)
+
+
 def run(col, configs, tier):
     for name, facts in configs.items():
         col.set_config(name)
@@ -535,3 +606,5 @@ def run(col, configs, tier):
         guarded(col, rule_binary_round, facts)
         guarded(col, rule_radix_rounding, facts)
         guarded(col, rule_point_zero_counted, facts)
+        guarded(col, rule_decimal_tie, facts)
+        guarded(col, rule_padding_not_disabled_by_trim, facts)
